@@ -21,6 +21,7 @@
 -/
 import LexprModel.Proofs.SerdeRT
 import LexprModel.Proofs.SerdeText
+import LexprModel.Proofs.FloatApproxSerde
 namespace Lexpr
 namespace Serde
 
